@@ -4,7 +4,7 @@
 EXTENDS UriTemplate, Json, TLC
 
 CONSTANTS MaxLen, Tokens, Ids
-VARIABLES t, n
+VARIABLES t, n, sid          \* n = -1: the id is the string sid
 
 RECURSIVE Flat(_)
 Flat(ts) == IF ts = <<>> THEN <<>> ELSE Head(ts) \o Flat(Tail(ts))
@@ -14,11 +14,14 @@ MCTokens == {<<103>>, <<70>>, <<47>>, <<37>>, <<123>>, <<125>>, <<105>>, <<100>>
 MCIds == {0, 1, 31, 32, 123, 478, 255, 256, 65535, 65536, 8388607, 1000000}
 Fixed == {<<123, 105, 100, 125>>, <<123, 105, 100, 54, 52, 125>>, <<123, 100, 49, 125, 47, 123, 100, 50, 125, 47, 123, 100, 51, 125, 47, 123, 100, 52, 125>>,
           <<47, 47, 102, 46, 98, 47, 123, 100, 49, 125, 47, 123, 105, 100, 125, 63, 113, 61, 123, 105, 100, 54, 52, 125>>}
-Init == \/ \E ts \in Templates : t = Flat(ts) /\ n = 478
-        \/ \E f \in Fixed, i \in Ids : t = f /\ n = i
-Next == UNCHANGED <<t, n>>
-Spec == Init /\ [][Next]_<<t, n>>
+Sids == {<<>>, <<0>>, <<0, 1>>, <<255>>, <<1, 2, 3>>, <<104, 105>>, <<251, 255, 190>>}
+Init == \/ \E ts \in Templates : t = Flat(ts) /\ n = 478 /\ sid = <<>>
+        \/ \E f \in Fixed, i \in Ids : t = f /\ n = i /\ sid = <<>>
+        \/ \E f \in Fixed, b \in Sids : t = f /\ n = -1 /\ sid = b
+Next == UNCHANGED <<t, n, sid>>
+Spec == Init /\ [][Next]_<<t, n, sid>>
 
-UriOK == OutputIsUri(t, n)
-CaseDump == PrintT(<<"URICASE", ToJson([template |-> t, id |-> n, ok |-> Expand(t, n).ok, out |-> Expand(t, n).out])>>)
+Result == IF n = -1 THEN ExpandB(t, sid) ELSE Expand(t, n)
+UriOK == Result.ok => UriChars(Result.out)
+CaseDump == PrintT(<<"URICASE", ToJson([template |-> t, id |-> n, sid |-> sid, ok |-> Result.ok, out |-> Result.out])>>)
 =============================================================================
